@@ -289,6 +289,12 @@ pub fn gen_weekday_fixed(r: &mut Rng, cfg: &GenCfg, canonical: bool) -> WeekDayR
             } else {
                 0
             };
+            if offset != 0 && r.chance(8) {
+                // every position listed explicitly ("Mo[1-5,-1,-2,-3,-4,-5] +1 day"): the only way
+                // to write a plain weekday with a day offset
+                s = [true; 5];
+                e = [true; 5];
+            }
             WeekDayRange::Fixed { range: a..=a, offset, nth_from_start: s, nth_from_end: e }
         }
     }
